@@ -425,5 +425,121 @@ func checkC07(c *Ctx) {
 	checkC07InitKey(c)
 	checkC07ResetRewinds(c)
 	checkC07UndoKeepsStart(c)
+	checkC07Round6(c)
 	unitRule(c, "C07.units", []string{"(*history.Sources).Save", "(*history.Sources).Undo", "(*history.Sources).Redo", "(*history.Sources).Revert"}, 0)
+}
+
+// ---- C07.undo-position-restarts / C07.pos-is-undone-count (round 6)
+func checkC07Round6(c *Ctx) {
+	p, r := c.P, c.R
+	const tn = "history.lineHistory"
+	r.Rule("C07.undo-position-restarts", "K3", "when Undo replaces the undone steps by the text it starts from (a store to lineHistory.items), the count of undone steps it goes on with is 0 on that path: the position is counted from the newest state, and the newest state is now the text just kept — a stale count skips states (undo jumps too far back) and redo no longer returns to the text", 1)
+	if U := p.Func("(*history.Sources).Undo"); U != nil {
+		r.Fn(fnName(U))
+		var posStores []*ssa.Store
+		eachInstr(U, func(in ssa.Instruction) {
+			if st, ok := isFieldStore(in, tn, "pos"); ok {
+				posStores = append(posStores, st)
+			}
+		})
+		n := 0
+		eachInstr(U, func(in ssa.Instruction) {
+			st, ok := isFieldStore(in, tn, "items")
+			if !ok {
+				return
+			}
+			key := siteKey(U, "items-store", n)
+			n++
+			B := st.Block()
+			found, good := 0, true
+			for _, T := range B.Succs {
+				pi := -1
+				for i, pb := range T.Preds {
+					if pb == B {
+						pi = i
+					}
+				}
+				for _, x := range T.Instrs {
+					ph, ok := x.(*ssa.Phi)
+					if !ok {
+						break
+					}
+					if !isIntType(ph.Type()) || pi < 0 {
+						continue
+					}
+					feeds := false
+					for _, ps := range posStores {
+						if dependsOn(ps.Val, func(v ssa.Value) bool { return v == ssa.Value(ph) }) {
+							feeds = true
+						}
+					}
+					if !feeds {
+						continue
+					}
+					found++
+					if k, isK := constInt(ph.Edges[pi]); !isK || k != 0 {
+						good = false
+					}
+				}
+			}
+			r.Check(found > 0 && good, "C07.undo-position-restarts", key, p.IPos(st), "the undone count restarts at 0 after the states list is rewritten", "Undo rewrites the list of states (the text it starts from takes the place of the undone steps) but goes on with the old count of undone steps: the next undo skips states and lands on a text that is not the newest earlier one, and undo followed by redo does not restore the text")
+		})
+		if n == 0 {
+			r.OK("C07.undo-position-restarts", fnName(U)+":no-items-store", p.Pos(U.Pos()), "Undo does not rewrite the list of states")
+		}
+	} else {
+		r.Unk("C07.undo-position-restarts", "(*history.Sources).Undo", "-", "anchor not found")
+	}
+
+	r.Rule("C07.pos-is-undone-count", "K3", "Sources.Pos — what vi-redo tests to choose between redoing and re-entering insert mode — returns the number of undone steps (lineHistory.pos, possibly clamped to the number of states) or 0: any other quantity makes redo after undoing everything do something else than redo", 1)
+	if P := p.Func("(*history.Sources).Pos"); P != nil {
+		r.Fn(fnName(P))
+		n := 0
+		eachInstr(P, func(in ssa.Instruction) {
+			ret, ok := in.(*ssa.Return)
+			if !ok || len(ret.Results) != 1 {
+				return
+			}
+			bad := ""
+			sawPos := false
+			for _, v := range mayValues(ret.Results[0]) {
+				if k, isK := constInt(v); isK {
+					if k != 0 {
+						bad = fmt.Sprintf("constant %d", k)
+					}
+					continue
+				}
+				if isFieldLoad(v, tn, "pos") {
+					sawPos = true
+					continue
+				}
+				if cl, isC := v.(*ssa.Call); isC && isLenCall(cl) && isFieldLoad(cl.Call.Args[0], tn, "items") {
+					continue
+				}
+				bad = p.descValue(v)
+			}
+			_ = sawPos
+			r.Check(bad == "", "C07.pos-is-undone-count", siteKey(P, "return", n), p.IPos(in), "0, lineHistory.pos, or its clamp", "Sources.Pos returns "+bad+" instead of the number of undone steps: after undoing back to the initial text vi-redo sees nothing to redo and enters insert mode")
+			n++
+		})
+		// the caller's test
+		if VR := p.Func("(*readline.Shell).viRedo"); VR != nil {
+			okTest := false
+			for _, cl := range callsTo(VR, false, "(*history.Sources).Pos") {
+				for _, ref := range referrersOf(cl.Value()) {
+					if bo, isBo := ref.(*ssa.BinOp); isBo {
+						if k, isK := constInt(bo.Y); isK && k == 0 && (bo.Op == token.GTR || bo.Op == token.NEQ) {
+							okTest = true
+						}
+						if k, isK := constInt(bo.Y); isK && k == 1 && bo.Op == token.GEQ {
+							okTest = true
+						}
+					}
+				}
+			}
+			r.Check(okTest, "C07.pos-is-undone-count", fnName(VR)+":tests-pos>0", p.Pos(VR.Pos()), "vi-redo redoes when Pos() > 0", "vi-redo no longer tests Pos() > 0")
+		}
+	} else {
+		r.Unk("C07.pos-is-undone-count", "(*history.Sources).Pos", "-", "anchor not found")
+	}
 }
